@@ -11,6 +11,7 @@ connection with fragmented replies.  Error replies are single lines since 94de19
 -/
 import SamVerif.Proofs.Session
 import SamVerif.Gen.Session
+import SamVerif.Proofs.Compose
 namespace SamVerif.Props.C01
 open SamVerif.Session
 
@@ -164,6 +165,60 @@ theorem code_matches_model :
     Gen.Session.queueCap = 32 := by
   refine ⟨rfl, rfl, rfl, rfl, rfl, rfl, rfl, rfl⟩
 
+/-! ### added: completion / composition -/
+/-- **Traffic on other connections does not matter (projection).** In the composed system — any
+number of downstream connections over any number of shared backend connections, every step of
+every party interleaved freely — the state of each downstream connection is one it reaches
+running alone: whatever the others do shows on it at most as the timing of completions. -/
+theorem other_connections_do_not_matter (cap : Nat) (ls : List Compose.CLabel) (s : Compose.Sys)
+    (h : Compose.run (Compose.init cap) ls = some s) (c : Nat) :
+    ∃ own : List Label, run { cap := cap } own = some (s.sess c) :=
+  Compose.reach_run cap ls _ s (Compose.reach_init cap) h c
+
+/-- hence on every connection of the composed system the replies are those of its requests
+`0 … m-1`, in order, each once -/
+theorem composed_replies_in_request_order (cap : Nat) (ls : List Compose.CLabel) (s : Compose.Sys)
+    (h : Compose.run (Compose.init cap) ls = some s) (c : Nat) :
+    (s.sess c).written = List.range (s.sess c).written.length ∧ (s.sess c).written.Nodup := by
+  obtain ⟨own, ho⟩ := other_connections_do_not_matter cap ls s h c
+  exact ⟨replies_in_request_order cap own _ ho, (at_most_one_reply cap own _ ho).1⟩
+
+/-- **The k-th reply is the result of the k-th request.** The reply written at position `k` of
+connection `c` belongs to request `(c, k)`, and what completed it was either the proxy itself or
+the `j`-th reply of a backend connection whose `j`-th encoded request was `(c, k)` — never a
+reply to another request, of this or any other connection. -/
+theorem kth_reply_is_result_of_kth_request (cap : Nat) (ls : List Compose.CLabel) (s : Compose.Sys)
+    (h : Compose.run (Compose.init cap) ls = some s) (c k id : Nat) (hk : (s.sess c).written[k]? = some id) :
+    id = k ∧ ((∃ w j, ((c, k), (w, j)) ∈ s.results ∧ (s.wires w).wire[j]? = some (c, k)) ∨ (c, k) ∈ s.locals) := by
+  obtain ⟨own, ho⟩ := other_connections_do_not_matter cap ls s h c
+  have hr := replies_in_request_order cap own _ ho
+  have hid : id = k := by
+    rw [hr] at hk
+    have hlt : k < (s.sess c).written.length := by
+      rcases Nat.lt_or_ge k (s.sess c).written.length with h1 | h1
+      · exact h1
+      · rw [List.getElem?_eq_none (by simpa using h1)] at hk; cases hk
+    rw [List.getElem?_range hlt] at hk
+    injection hk with hk; exact hk.symm
+  subst hid
+  refine ⟨rfl, ?_⟩
+  have hmem : id ∈ (s.sess c).written := List.mem_of_getElem? hk
+  have hdone := ((at_most_one_reply cap own _ ho).2 id hmem).1
+  have hp := Compose.pinv_run ls _ s (Compose.pinv_init cap) h
+  rcases hp.done c id hdone with ⟨w, j, hwj⟩ | hl
+  · exact Or.inl ⟨w, j, hwj, hp.res _ w j hwj⟩
+  · exact Or.inr hl
+
+/-- the composed theorems are not vacuous: two connections pipelining over one shared backend
+connection, the second connection's request encoded first, replies written on both -/
+example : ∃ s, Compose.run (Compose.init 32)
+    [.sess 0 .read, .sess 1 .read, .sess 0 .enqueue, .sess 1 .enqueue, .encode 7 (1, 0), .handoff 7, .encode 7 (0, 0),
+     .handoff 7, .sess 0 .take, .pair 7 true, .pair 7 true, .sess 0 .write, .sess 1 .take, .sess 1 .write] = some s
+    ∧ (s.sess 0).written = [0] ∧ (s.sess 1).written = [0]
+    ∧ s.results = [((0, 0), (7, 1)), ((1, 0), (7, 0))] := by
+  refine ⟨_, rfl, ?_⟩
+  decide
+
 end SamVerif.Props.C01
 
 #print axioms SamVerif.Props.C01.replies_in_request_order
@@ -171,3 +226,6 @@ end SamVerif.Props.C01
 #print axioms SamVerif.Props.C01.all_replied_at_rest
 #print axioms SamVerif.Props.C01.reply_j_goes_to_request_j
 #print axioms SamVerif.Props.C01.code_matches_model
+#print axioms SamVerif.Props.C01.other_connections_do_not_matter
+#print axioms SamVerif.Props.C01.composed_replies_in_request_order
+#print axioms SamVerif.Props.C01.kth_reply_is_result_of_kth_request
